@@ -1816,6 +1816,20 @@ def install_scipy_models(interp, E):
     E["scipy.linalg"] = LibModule("scipy.linalg", scipy.linalg, {})
     E["scipy.stats"] = LibModule("scipy.stats", st, {})
 
+    def brentq(interp, f, a, b, *args, **kw):
+        """assumed contract (A3): either ValueError (f(a) and f(b) of the same sign) or a root x in [a, b] with f(x) = 0
+        (to the solver's tolerance, taken as exact)"""
+        path = ctx.PATH
+        if path.choose(2) == 1:
+            raise PyRaise("ValueError", "f(a) and f(b) must have different signs")
+        x = path.fresh("brentq_root", "r")
+        path.assume(And(compare(a, x, "<="), compare(x, b, "<=")))
+        path.ghost.setdefault("_brentq_roots", []).append(x)
+        fx = interp.call(f, [x], {})
+        path.assume(compare(fx, 0, "=="))
+        return x
+    register_model(scipy.optimize.brentq, _always(brentq))
+
     # norm.cdf as an uninterpreted function Phi
     def phi(interp, x, *a, **k):
         def one(v):
